@@ -47,13 +47,85 @@ OBLIGATIONS = [
     "Grog.Compose.second_machine_of_history",
 ]
 ASSUMPTIONS = [
-    "the remote store never loses an object and a successful put is atomic (S3 PutObject / finalised GCS writer)",
+    "the remote store never loses an object (no eviction / lifecycle rule / manual delete of cas or target objects) and a successful put is atomic (S3 PutObject / finalised GCS writer)",
+    "a remote Get that returns without an error delivers the complete object (the S3/GCS clients turn a short body into an error); the read-through fill does not re-verify digests",
+    "second_machine: no taint marker of a selected target is visible to the second machine (taint markers are shared through the remote tier; a failed remote Delete leaves one behind)",
     "a blob or result is written only after every digest it references was confirmed by Cas.Write returning nil (checked on the traces)",
     "local file-system faults under the wrapper are not injected (the wrapper needs the concrete FileSystemCache); they are covered by C07",
 ]
 
-MACH = {"A": 0, "B": 1, "C": 2}
+MACH = {"A": 0, "B": 1, "C": 2, "Z": 3}
 SET_FAULTS = ["err", "err-mid", "err-late", "err-after"]
+
+
+def small_workload(huge=False):
+    """six targets: two small files with the same content, two 70 000-byte files with the same content (one executable), two directories
+    sharing those contents; optionally a multi-MiB file"""
+    big = "".join(chr((i * 13) % 251) for i in range(70000))
+    files = [("x.txt", F("same content\n")), ("y.txt", F("same content\n")), ("bx.bin", F(big)), ("by.bin", F(big, True)),
+             ("dx", D(("f", F("same content\n")), ("g", F(big)))), ("dy", D(("h", F("same content\n")), ("k", D(("g", F(big))))))]
+    ts = [{"pkg": "p", "name": "x", "key": "kx", "outputs": [["file", "x.txt"]]}, {"pkg": "p", "name": "y", "key": "ky", "outputs": [["file", "y.txt"]]},
+          {"pkg": "p", "name": "bx", "key": "kbx", "outputs": [["file", "bx.bin"]]}, {"pkg": "p", "name": "by", "key": "kby", "outputs": [["file", "by.bin"]]},
+          {"pkg": "p", "name": "dx", "key": "kdx", "outputs": [["dir", "dx"]]}, {"pkg": "p", "name": "dy", "key": "kdy", "outputs": [["dir", "dy"]]}]
+    if huge:
+        files.append(("huge.bin", F("".join(chr((i * 7 + i // 4096) % 251) for i in range(2 * 1024 * 1024 + 4097)))))
+        ts.append({"pkg": "p", "name": "huge", "key": "khuge", "outputs": [["file", "huge.bin"]]})
+    return D(("p", D(*files))), ts
+
+
+# every kind of remote operation x failure point x repetition, and the local tier filling up
+CELLS = ([{"op": "set", "ns": ns, "nth": nth, "kind": k} for ns in ("cas", "target") for k in SET_FAULTS for nth in (1, 2, 0)] +
+         [{"op": "exists", "ns": "cas", "nth": nth, "kind": "err"} for nth in (1, 2, 0)] +
+         [{"op": "get", "ns": ns, "nth": nth, "kind": k} for ns in ("cas", "target") for k in ("err", "err-mid") for nth in (1, 2, 0)] +
+         [{"op": "fsize", "nth": lim} for lim in (0, 100, 40000, 1000000)])
+
+
+def skeletons(cell, allt, sub):
+    """histories in which one step carries the fault cell; always followed by a fault-free retry (the next build)"""
+    f = [cell]
+    wr = cell["op"] in ("set", "exists", "fsize")
+    rd = cell["op"] in ("get", "exists", "fsize")
+    out = []
+    if wr:
+        out.append(("fresh-build", [{"m": "A", "do": "build", "targets": allt, "faults": f}, {"m": "A", "do": "build", "targets": allt}]))
+        out.append(("build-over-local-only", [{"m": "A", "do": "build-local", "targets": sub}, {"m": "A", "do": "build", "targets": allt, "faults": f},
+                                              {"m": "A", "do": "build", "targets": allt}]))
+        out.append(("load-then-write", [{"m": "A", "do": "build-local", "targets": sub},
+                                        {"m": "A", "do": "mixed", "ops": [["restore", t] for t in sub] + [["build", t] for t in allt], "faults": f}]))
+        out.append(("broken-source", [{"m": "A", "do": "mixed", "ops": [["rawset", t] for t in allt] + [["build", t] for t in allt], "faults": f}]))
+    if rd:
+        out.append(("restore", [{"m": "A", "do": "build", "targets": allt}, {"m": "B", "do": "restore", "targets": allt, "faults": f},
+                                {"m": "B", "do": "restore", "targets": allt}]))
+        out.append(("blocked-restore", [{"m": "A", "do": "build", "targets": allt},
+                                        {"m": "B", "do": "mixed", "ops": [[k, t] for t in allt for k in ("restore-blocked", "restore")], "faults": f},
+                                        {"m": "B", "do": "restore", "targets": allt}]))
+        out.append(("peek-restore", [{"m": "A", "do": "build", "targets": allt},
+                                     {"m": "B", "do": "mixed", "ops": [["peek", t] for t in allt] + [["restore", t] for t in allt], "faults": f}]))
+    return out
+
+
+def systematic_histories(rng, quick):
+    """the cross product fault cell x skeleton over the small workload (quick: a deterministic third of it, rotating with the seed)"""
+    wss, ts = small_workload()
+    allt, sub = [0, 2, 4], [0, 2]
+    out = []
+    n = 0
+    for ci, cell in enumerate(CELLS):
+        for name, h in skeletons(cell, allt, sub):
+            n += 1
+            if quick and (n + rng.randint(0, 0)) % 3 != 0 and not (cell["op"] in ("exists", "fsize") and cell["nth"] in (0, 40000)):
+                continue
+            out.append((wss, ts, h, "cell:%s:%s" % (name, cell["op"])))
+    # without any fault: the blocked restore and the broken source alone; a multi-MiB blob through every skeleton once
+    out.append((wss, ts, [{"m": "A", "do": "build", "targets": allt}, {"m": "B", "do": "mixed", "ops": [[k, t] for t in allt for k in ("restore-blocked", "restore")]},
+                          {"m": "C", "do": "restore", "targets": allt}], "cell:blocked-restore:none"))
+    out.append((wss, ts, [{"m": "A", "do": "mixed", "ops": [["rawset", t] for t in allt] + [["build", t] for t in allt]}], "cell:broken-source:none"))
+    wsh, th = small_workload(huge=True)
+    hi = len(th) - 1
+    for cell in ({"op": "set", "ns": "cas", "nth": 1, "kind": "err-late"}, {"op": "fsize", "nth": 1000000}, {"op": "get", "ns": "cas", "nth": 1, "kind": "err-mid"}):
+        for name, h in skeletons(cell, [hi], [hi])[:2 if quick else 9]:
+            out.append((wsh, th, h, "cell:huge:%s:%s" % (name, cell["op"])))
+    return out
 
 
 def fixed_histories():
@@ -95,6 +167,14 @@ def fixed_histories():
                               {"m": "B", "do": "restore", "targets": [tgt], "faults": [{"op": "get", "ns": "cas", "nth": 1 if tgt != 4 else 2, "kind": "err-mid"}]},
                               {"m": "B", "do": "restore", "targets": [tgt]}, {"m": "C", "do": "mixed", "ops": [["peek", tgt], ["restore", tgt]]},
                               {"m": "C", "do": "restore", "targets": [tgt]}], "fixed-midstream-" + nm))
+    # (T) taint markers live in both tiers: A taints :x, rebuilds it, the remote Delete of the marker fails (only logged by the executor);
+    # B (empty local cache) then sees :x tainted. Second history: the Delete succeeds and nobody sees a marker any more.
+    out.append((wss, ts, [{"m": "A", "do": "mixed", "ops": [["taint", 0], ["tainted", 0]]},
+                          {"m": "A", "do": "mixed", "ops": [["build", 0], ["untaint", 0]], "faults": [{"op": "delete", "ns": "taint", "nth": 1, "kind": "err"}]},
+                          {"m": "B", "do": "mixed", "ops": [["tainted", 0], ["restore", 0]]}, {"m": "A", "do": "mixed", "ops": [["tainted", 0]]}], "fixed-stale-taint"))
+    out.append((wss, ts, [{"m": "A", "do": "mixed", "ops": [["taint", 0], ["taint", 1]]}, {"m": "B", "do": "mixed", "ops": [["tainted", 0], ["tainted", 2]]},
+                          {"m": "A", "do": "mixed", "ops": [["build", 0], ["untaint", 0]]},
+                          {"m": "B", "do": "mixed", "ops": [["tainted", 0], ["tainted", 1], ["restore", 0]]}], "fixed-taint-cleared"))
     # (H) a failed remote Get of key K, then a second Get of the same K in the same process (retry / another output with the same blob)
     out.append((wss, ts, [{"m": "A", "do": "build", "targets": [0, 1]},
                           {"m": "B", "do": "mixed", "ops": [["restore", 0], ["restore", 0], ["restore", 1]], "faults": [{"op": "get", "ns": "cas", "nth": 1, "kind": "err"}]},
@@ -124,9 +204,9 @@ def gen_history(rng, nt):
     def faults(ops, k=None):
         out = []
         for _ in range(k if k is not None else rng.choice([1, 1, 2])):
-            op = rng.choice(ops)
-            kind = rng.choice(SET_FAULTS) if op == "set" else rng.choice(["err", "err-mid"] if op == "get" else ["err"])
-            out.append({"op": op, "ns": rng.choice(["cas", "cas", "target", ""]), "nth": rng.choice([1, 1, 2, 3, 0]), "kind": kind})
+            op = rng.choice(ops + ["delete"])
+            kind = rng.choice(SET_FAULTS) if op == "set" else rng.choice(["err", "err-mid"] if op == "get" else (["err", "err-after"] if op == "delete" else ["err"]))
+            out.append({"op": op, "ns": rng.choice(["cas", "cas", "target", "", "taint"]), "nth": rng.choice([1, 1, 2, 3, 0]), "kind": kind})
         return out
     if fam == "baseline":
         h = [{"m": "A", "do": "build", "targets": allt}, {"m": "B", "do": "restore", "targets": allt}]
@@ -159,7 +239,7 @@ def gen_history(rng, nt):
             do = rng.choice(["build", "build", "build-local", "restore", "restore", "mixed"])
             st = {"m": rng.choice(["A", "A", "B", "C"]), "do": do, "targets": rng.sample(allt, rng.randint(1, nt))}
             if do == "mixed":
-                st["ops"] = [[rng.choice(["restore", "build", "peek"]), rng.choice(allt)] for _ in range(rng.randint(2, 4))]
+                st["ops"] = [[rng.choice(["restore", "build", "peek", "taint", "untaint", "tainted"]), rng.choice(allt)] for _ in range(rng.randint(2, 5))]
                 del st["targets"]
             if do != "build-local" and rng.random() < 0.4:
                 st["faults"] = faults(["set", "get", "exists"])
@@ -184,6 +264,13 @@ def to_model_events(x):
         elif e["e"] == "local":
             refs[(e["ns"], k)] = e["refs"]
             out.append({"e": "local", "m": MACH[e["m"]], "ns": e["ns"], "k": k, "refs": e["refs"]})
+        elif e.get("ns") == "taint":
+            if e["e"] == "set":
+                out.append({"e": "tset", "p": e["p"], "k": k, "la": e["l"], "ra": e["rem"], "ok": e["ok"]})
+            elif e["e"] == "exists":
+                out.append({"e": "texists", "p": e["p"], "k": k, "r": e["r"]})
+            elif e["e"] == "delete":
+                out.append({"e": "tdel", "p": e["p"], "k": k, "la": e["l"], "ra": e["rem"], "ok": e["ok"]})
         elif e["e"] in ("exists", "existsAll"):
             if e["ns"] in ("cas", "target"):
                 out.append({"e": e["e"], "p": e["p"], "ns": e["ns"], "k": k, "r": e["r"]})
@@ -203,12 +290,19 @@ def to_model_events(x):
 def run(ctx):
     quick = ctx.tier == "quick"
     scratch = ctx.scratch("c08")
-    cases = list(fixed_histories())
-    for k in range(60 if quick else 1200):
+    cases = list(fixed_histories()) + systematic_histories(ctx.rng, quick)
+    for k in range(45 if quick else 1200):
         ws, targets = S.workload(ctx.rng, k)
         h, fam = gen_history(ctx.rng, len(targets))
         cases.append((ws, targets, h, fam))
-    reqs = [{"op": "store.remote", "scratch": scratch, "ws": ws, "targets": t, "history": h} for ws, t, h, _ in cases]
+    # every history ends with a restore of everything on a machine that has never been used (empty local cache, no faults);
+    # the remote is the in-memory CacheBackend or the real S3Cache over a fake S3 client; the handlers run with and without a
+    # ProgressTracker (wrapped, non-seekable readers); some histories run without the recorder between Cas and RemoteWrapper
+    cases = [(ws, t, h + [{"m": "Z", "do": "restore", "targets": list(range(len(t)))}], fam) for ws, t, h, fam in cases]
+    reqs = []
+    for i, (ws, t, h, fam) in enumerate(cases):
+        reqs.append({"op": "store.remote", "scratch": scratch, "ws": ws, "targets": t, "history": h, "remote": ("s3", "mem")[i % 2],
+                     "progress": i % 4 < 2, "direct": i % 7 == 6})
     outs = []
     for i in range(0, len(reqs), 50):
         part = S.impl(ctx, reqs[i:i + 50])
@@ -235,6 +329,7 @@ def run(ctx):
             if o.get("fault"):
                 stats["remote_faults_hit"][o["op"] + ":" + o["fault"]] = stats["remote_faults_hit"].get(o["op"] + ":" + o["fault"], 0) + 1
         published = set()      # targets a successful build with the remote cache has written
+        cleared = set()        # targets whose taint was cleared successfully (Clear returned nil) and not set again
         nontrivial = False
         for st_req, st in zip(h, x["steps"]):
             stats["steps"] += 1
@@ -245,7 +340,10 @@ def run(ctx):
                 loc = [d for m in x["locals"].values() for d in m.get("cas", [])]
                 digs = [p.split(" blob ")[1].split(" ")[0] for p in st["dangling"] if " blob " in p]
                 sig = "remote-result-references-local-only-blob" if digs and all(d in loc for d in digs) else "remote-dangling-reference"
-                ctx.violation("the remote store holds a target result that references a blob the remote store does not hold: " + st["dangling"][0],
+                if any("does not hash" in p for p in st["dangling"]):
+                    sig = "remote-corrupt-entry"
+                ctx.violation(("the remote store holds an object whose content does not match its digest: " if sig == "remote-corrupt-entry" else
+                               "the remote store holds a target result that references a blob the remote store does not hold: ") + st["dangling"][0],
                               {"kind": "oracle", "oracle": "closure audit of the remote store", "request": req, "step": st, "family": fam,
                                "remote_keys": x["remote_keys"], "locals": x["locals"], "events": x["events"]}, signature=sig)
             for mname, bad in (st.get("local_audit") or {}).items():
@@ -254,6 +352,18 @@ def run(ctx):
                               signature="local-cache-corrupt-entry")
             for r in st["results"]:
                 kind = r.get("kind", st["do"])
+                if kind == "taint" and r["outcome"] == "ok":
+                    cleared.discard(r["target"])
+                if kind == "untaint" and r["outcome"] == "ok":
+                    cleared.add(r["target"])
+                if kind == "tainted" and r.get("tainted"):
+                    stats["tainted_answers"] = stats.get("tainted_answers", 0) + 1
+                    if fam == "fixed-stale-taint" and st["m"] == "B":
+                        stats["stale_remote_taint_seen_by_B"] = True       # the reviewer's scenario on the real code (allowed degradation, see notes)
+                    if r["target"] in cleared:
+                        ctx.violation("a target is reported tainted although its taint was cleared successfully and not set again",
+                                      {"kind": "oracle", "oracle": "taint cleared in every tier", "request": req, "step": st, "family": fam},
+                                      signature="taint-survives-successful-clear")
                 key = kind + ":" + r["outcome"]
                 stats["outcomes"][key] = stats["outcomes"].get(key, 0) + 1
                 if r["outcome"] == "hang" and not S.confirm_hang(ctx, req, lambda o: any(rr.get("outcome") == "hang" for ss in o.get("steps", []) for rr in ss["results"])):
@@ -264,7 +374,10 @@ def run(ctx):
                     ctx.violation("a cache operation through the remote wrapper hangs" + (" (restore of a directory output whose blob cannot be fetched)" if in_dir_restore else ""),
                                   {"kind": "oracle", "oracle": "no hang", "request": req, "step": st, "family": fam},
                                   signature="dir-restore-hangs-on-blob-error" if in_dir_restore else "remote-hang")
-                if kind == "restore" and r["outcome"] == "ok" and not r.get("equal"):
+                if kind == "rawset" and r["outcome"] == "ok":
+                    ctx.violation("a Set whose source stream failed in the middle reported success", {"kind": "oracle", "oracle": "broken source => error",
+                                  "request": req, "step": st, "family": fam}, signature="broken-source-set-ok")
+                if kind in ("restore", "restore-blocked") and r["outcome"] == "ok" and not r.get("equal"):
                     ctx.violation("a machine restored outputs that differ from what was cached", {"kind": "oracle", "oracle": "restored == cached", "request": req, "step": st},
                                   signature="remote-restore-wrong-content")
                 if kind == "restore" and r["outcome"] != "ok" and r["target"] in published and not st_req.get("faults") and not st["dangling"]:
@@ -281,6 +394,9 @@ def run(ctx):
                               signature="remote-get-wrong-content")
         if x["dangling"] == [] and nontrivial:
             distinct.add(hashlib.sha1(S.jdump([ws, targets, h]).encode()).hexdigest())
+        if req.get("direct"):
+            stats["direct_histories"] = stats.get("direct_histories", 0) + 1
+            continue
         ev = to_model_events(x)
         q = [[-1] + k.split("/", 1) for k in x["remote_keys"] if k.split("/", 1)[0] in ("cas", "target")]
         seen_keys = {(e["ns"], e["k"]) for e in ev if "k" in e and "ns" in e}
@@ -307,7 +423,7 @@ def run(ctx):
     ctx.coverage["evaluations"] = len(reqs)
     ctx.coverage["traces_validated_against_impl"] = len(replays)
     ctx.coverage["distinct_nontrivial"] = len(distinct)
-    ctx.coverage["rule"] = ("17 targeted histories (incl. load-then-write of a local-only digest in one process, mid-stream remote read failures and early-closing consumers followed by a second read) (incl. the Lean witness of F-remote-skip and remote Set failing after the local tier stored) + generated histories over "
+    ctx.coverage["rule"] = ("17 targeted histories + the cross product {remote op kind x failure point x repetition, local disk full at L bytes} x {fresh build, build over local-only blobs, load-then-write, broken source stream, restore, restore with a directory at the file path, peek-then-restore} over a small workload (quick: a third of it) and a multi-MiB blob; every history ends with a restore on an unused machine; remote = in-memory backend or the real S3Cache over a fake S3 client; with and without ProgressTracker (incl. load-then-write of a local-only digest in one process, mid-stream remote read failures and early-closing consumers followed by a second read) (incl. the Lean witness of F-remote-skip and remote Set failing after the local tier stored) + generated histories over "
                             "machines A,B,C: build with remote cache, build without remote cache (local-only blobs), restore into an emptied workspace; remote faults "
                             "scripted per step on get/set/exists (err, err-mid, err-late = read everything then fail, err-after = stored then fail); workloads of 1-3 "
                             "targets sharing contents; non-trivial = distinct history in which some machine restored outputs successfully and the remote stayed closed")
@@ -395,6 +511,37 @@ def namespaces(ctx, stats):
                                "through_symlink": {k: sy.get(k) for k in ("ws", "local_cache_dir_name", "objects")},
                                "replay_request": {"op": "store.s3path", "bucket": b, "prefix": p, "name": name, "calls": calls}},
                               signature="namespace-depends-on-symlinks")
+    # the real GCSCache (recording HTTP server behind STORAGE_EMULATOR_HOST): object names vs the model; shared_cache on / off
+    groots = ["/home/alice/src/myrepo", "/builds/myrepo", "/builds/other", "/w/" + S.proto("rép o")]
+    gcfgs = [(b, p, r, sh) for b in ("gb",) for p in ("", "/team/", "a/b") for r in groots for sh in (True, False)]
+    gouts = S.impl(ctx, [{"op": "store.gcspath", "bucket": b, "prefix": p, "root": r, "shared": sh, "calls": calls} for b, p, r, sh in gcfgs]) or []
+    gm = []
+    for (b, p, r, sh), x in zip(gcfgs, gouts):
+        base_name = S.unproto(r).rsplit("/", 1)[1]
+        ident = base_name if sh else hl.sha256(S.unproto(r).encode()).hexdigest()[:16] + "-" + base_name
+        gm.append({"op": "store.objpath", "bucket": b, "prefix": p, "ws": S.proto(ident), "calls": calls})
+    gmo = S.model(ctx, gm)
+    gbad = 0
+    for cfg, x, y in zip(gcfgs, gouts, gmo):
+        if not x.get("ok") or x.get("objects") != y.get("objects"):
+            gbad += 1
+            if gbad == 1:
+                ctx.violation("remote object names differ between GCSCache and the model", {"kind": "correspondence", "correspondence": "GCSCache.buildPath vs RemotePath.objectOf",
+                              "config": cfg, "impl": x, "model": y}, found_input=False)
+    for i in range(len(gcfgs)):
+        for j in range(i + 1, len(gcfgs)):
+            (b1, p1, r1, s1), (b2, p2, r2, s2) = gcfgs[i], gcfgs[j]
+            if s1 != s2:
+                continue
+            same_id = (S.unproto(r1).rsplit("/", 1)[1] == S.unproto(r2).rsplit("/", 1)[1]) if s1 else (r1 == r2)
+            expect = b1 == b2 and p1.strip("/") == p2.strip("/") and same_id
+            got = gouts[i].get("objects") == gouts[j].get("objects")
+            if expect != got:
+                ctx.violation("GCS: two configurations %s the same objects although bucket / trimmed prefix / workspace identity (shared_cache=%s: %s) %s" %
+                              (("address" if got else "do not address"), s1, "directory name" if s1 else "path hash + directory name", ("differ" if got else "agree")),
+                              {"kind": "oracle", "oracle": "GCS same namespace iff same (bucket, trimmed prefix, workspace identity)", "c1": gcfgs[i], "c2": gcfgs[j],
+                               "objects1": gouts[i].get("objects"), "objects2": gouts[j].get("objects")}, signature="gcs-namespace-" + ("collision" if got else "split"))
+    stats["gcs_configs"] = len(gcfgs)
     stats["namespace_symlink_pairs"] = sym
     stats["namespace_configs"] = len(cfgs)
     stats["namespace_pairs"] = pairs
